@@ -662,7 +662,12 @@ func (c *client) loopRead() {
 			return
 		}
 
-		req := <-c.processingReqs
+		var req *simpleRequest
+		select {
+		case req = <-c.processingReqs:
+		case <-c.quit:
+			return
+		}
 		c.handleResp(req, resp)
 	}
 }
